@@ -1,5 +1,5 @@
 """Rule registry: name -> callable(ctx, prop) -> RuleResult | [RuleResult]."""
-from . import trav, exh, backend, names, fields, compiler, memory, purity, determinism, patterns
+from . import trav, exh, backend, names, fields, compiler, memory, purity, determinism, patterns, unify
 
 
 def _trav_scoped(classes, name):
@@ -20,6 +20,7 @@ RULES = {
     "TRAV": trav.rule_trav,
     "TRAV@C09": _trav_scoped(TRAV_C09, "TRAV"),
     "TRAV@C15": _trav_scoped(TRAV_C15, "TRAV"),
+    "TRAV@C05": _trav_scoped(["_Find_Mod_Div_Symbols"], "TRAV"),
     "TRAVBASE": trav.rule_travbase,
     "BYPASS": trav.rule_bypass,
     "EXH": exh.rule_exh,
@@ -47,6 +48,10 @@ RULES = {
     "FINDORDER": patterns.rule_findorder,
     "PASTTOTAL": patterns.rule_pasttotal,
     "NOMATCH": patterns.rule_nomatch,
+    "ZIPLEN": unify.rule_ziplen,
+    "REPLSCOPE": unify.rule_replscope,
+    "CALLPRED": unify.rule_callpred,
+    "HOLESIB": unify.rule_holesib,
     "BACKPIPE": backend.rule_backpipe,
     "PAREMIT": backend.rule_paremit,
     "PARCHECK": backend.rule_parcheck,
